@@ -1,4 +1,4 @@
 CONSTANTS MaxBases = 2  MaxRetries = 3  MaxFail = 2  Guard = "all"  AtomicFence = TRUE  Variant = "code"
 SPECIFICATION Spec
-INVARIANTS TypeOK BodyIntact Export
+INVARIANTS TypeOK BodyIntact SourceFaultFails Export
 CHECK_DEADLOCK FALSE
